@@ -16,7 +16,7 @@ pub fn def() -> CheckDef {
         bounds_quick: "forget / forget_monogamous on every lax term with <=3 nodes and <=2 hyperedges of arity <=2 (0->n, n->0 and 0->0 included), <=1 pending pair, interfaces <=1; node and edge labels symbolic, so every hyperedge is variable-labelled or not and its incident labels equal or not by the solver's choice; Var builder: ten scripted uses (all operator overloads, operation/fn_operation, explicit new_target) (sharing, multi-result operations, unused inputs, leaked handle) evaluated on symbolic 64-bit inputs",
         bounds_thorough: "forget on <=4 nodes, <=2 hyperedges of arity <=3",
         jobs,
-        budget_s: (150, 1500),
+        budget_s: (110, 1500),
     }
 }
 
